@@ -60,12 +60,14 @@ Vals(sweep) == [n \in {sweep[i].n : i \in 1..Len(sweep)} |->
 \* A statement may create variables (new names in cur) and ERASE removes an array's elements; every cell alive
 \* before and after, other than the statement's own targets, keeps its value.
 Targets(a) == CASE a.op = "assign" -> {a.x} [] a.op = "swap" -> {a.x, a.y} [] OTHER -> {}
+\* ERASE may name two arrays in one statement (arr, arr2)
+ErasedBy(a, x) == a.op = "erase" /\ (x = a.arr \/ ("arr2" \in DOMAIN a /\ x = a.arr2))
 NonInterference(prev, cur, a, ok) ==
     LET both == DOMAIN prev \cap DOMAIN cur IN
     IF \E n \in both : (~ok \/ n \notin Targets(a)) /\ cur[n].val # prev[n].val
         THEN "another_variable_changed"
-    ELSE IF \E n \in DOMAIN prev \ DOMAIN cur : ~(ok /\ a.op = "erase" /\ prev[n].arr = a.arr) THEN "a_variable_disappeared"
-    ELSE IF ok /\ a.op = "erase" /\ \E n \in both : prev[n].arr = a.arr THEN "erased_array_still_alive"
+    ELSE IF \E n \in DOMAIN prev \ DOMAIN cur : ~(ok /\ ErasedBy(a, prev[n].arr)) THEN "a_variable_disappeared"
+    ELSE IF ok /\ a.op = "erase" /\ \E n \in both : ErasedBy(a, prev[n].arr) THEN "erased_array_still_alive"
     ELSE IF ok /\ a.op = "swap" /\ a.x \in DOMAIN prev /\ a.y \in DOMAIN prev
               /\ ~(cur[a.x].val = prev[a.y].val /\ cur[a.y].val = prev[a.x].val) THEN "swap_did_not_exchange"
     ELSE IF ok /\ a.op = "assign" /\ "sv" \in DOMAIN a /\ cur[a.x].val # a.sv THEN "string_target_differs_from_assigned_value"
